@@ -429,6 +429,24 @@ func c15WF(d *c15Dump, store map[int]*c15Spec, checkMinSum bool) (string, string
 			}
 		}
 	}
+	// the same clause with the two bypasses as explicit parts (Lean: MinSum), demanded in EVERY history: a recorded
+	// quota that does not carry allow-force-update / is-root covers the mins of its children that do not carry them
+	for _, pn := range names {
+		if d.qs[pn].force || d.qs[pn].treeRoot {
+			continue
+		}
+		for k := 0; k < c15Dims; k++ {
+			var sum int64
+			for _, cn := range names {
+				if c := d.qs[cn]; c.parent == pn && !c.force && !c.treeRoot {
+					sum += c15Val(c.mn[k])
+				}
+			}
+			if sum > c15Val(d.qs[pn].mn[k]) {
+				return "C15:min-sum", fmt.Sprintf("non-bypassing children of %d sum to %d > min %d in dimension %d", pn, sum, c15Val(d.qs[pn].mn[k]), k)
+			}
+		}
+	}
 	// children map = inverse of the parent relation; keys = root + recorded names
 	want := map[int][]int{0: {}}
 	for _, n := range names {
@@ -784,6 +802,9 @@ func TestVerifC15(t *testing.T) {
 			switch kind {
 			case "add":
 				sp = g.fresh(target)
+				if sp.name == 0 { // hypothesis NotRootAdd of the Lean theorems (root-named creates: TestVerifC15RootAdd)
+					h.Fail("C15:assumption-not-root-add", "main stream generated a create request named root")
+				}
 				h.Op("%s", c15OpLine("add", sp, false))
 				obj := c15Object(sp, rp)
 				panicked = h.Guard(func() { err = qt.ValidAddQuota(obj) })
@@ -1017,4 +1038,192 @@ func TestVerifC15RootAdd(t *testing.T) {
 	}
 	h.Close("root-add stream: 0-3 quotas under the root (+ grandchild), then a create request NAMED koordinator-root-quota " +
 		"(parent label \"\" as the scheduler writes it / root / an existing quota), then more creates; non-trivial = root object accepted with >=1 quota already under the root")
+}
+
+// ---- exhaustive small-scope stream (DESIGN §4 C15 R) ----
+//
+// Request alphabet (75): for each of 3 names {3,4,5}: create and update with is-parent in {0,1} x cpu-min in {2,6}
+// x parent in {root, the two other names} (cpu-max 8), and delete.  ALL sequences of <= 4 requests (quick tier: <= 3)
+// are covered: a request that is rejected, or accepted without changing the recorded topology, leaves the state as it
+// was (that is itself checked), so every sequence containing it behaves like the sequence without it; only
+// accepted, state-changing requests are extended.  One case = one committed prefix (<= 3 requests, each accepted and
+// state-changing) followed by all 75 requests, each evaluated on the state after the prefix (`try`: the real
+// topology is rebuilt from the prefix before every request; the model evaluates without committing).
+type c15Req struct {
+	kind string
+	sp   *c15Spec
+}
+
+func c15Alphabet() []c15Req {
+	var out []c15Req
+	names := []int{3, 4, 5}
+	for _, n := range names {
+		for _, ip := range []bool{false, true} {
+			for _, mn := range []int64{2, 6} {
+				for _, p := range []int{0, 3, 4, 5} {
+					if p == n {
+						continue
+					}
+					sp := &c15Spec{name: n, parent: p, isParent: ip, mn: [c15Dims]int64{mn, c15Absent, c15Absent}, mx: [c15Dims]int64{8, c15Absent, c15Absent}}
+					out = append(out, c15Req{"add", sp}, c15Req{"upd", sp})
+				}
+			}
+		}
+		out = append(out, c15Req{"del", &c15Spec{name: n, mn: [c15Dims]int64{c15Absent, c15Absent, c15Absent}, mx: [c15Dims]int64{c15Absent, c15Absent, c15Absent}}})
+	}
+	return out
+}
+
+func (rq c15Req) line() string {
+	if rq.kind == "del" {
+		return fmt.Sprintf("del %d 0", rq.sp.name)
+	}
+	return c15OpLine(rq.kind, rq.sp, false)
+}
+
+// c15Apply sends one request to the real topology; store = accepted API objects (old object of update / delete).
+func c15Apply(h *vHarness, qt *quotaTopology, store map[int]*c15Spec, rq c15Req) (ok, panicked bool, err error) {
+	rp := c15Repr{}
+	old := store[rq.sp.name]
+	switch rq.kind {
+	case "add":
+		obj := c15Object(rq.sp, rp)
+		panicked = h.Guard(func() { err = qt.ValidAddQuota(obj) })
+	case "upd":
+		obj := c15Object(rq.sp, rp)
+		var oldObj *v1alpha1.ElasticQuota
+		if old != nil {
+			oldObj = c15Object(old, rp)
+		}
+		panicked = h.Guard(func() { err = qt.ValidUpdateQuota(oldObj, obj) })
+	case "del":
+		obj := c15Object(rq.sp, rp)
+		if old != nil {
+			obj = c15Object(old, rp)
+		}
+		panicked = h.Guard(func() { err = qt.ValidDeleteQuota(obj) })
+	}
+	ok = !panicked && err == nil
+	if ok {
+		switch rq.kind {
+		case "add", "upd":
+			if rq.kind == "add" || old != nil {
+				store[rq.sp.name] = rq.sp
+			}
+		case "del":
+			delete(store, rq.sp.name)
+		}
+	}
+	return
+}
+
+func c15Compact(ok bool, d *c15Dump) string {
+	return strings.Join(append([]string{fmt.Sprintf("res %d", vB(ok))}, d.lines()...), " | ")
+}
+
+func TestVerifC15Exhaustive(t *testing.T) {
+	h := vOpen("C15")
+	if h == nil {
+		t.Skip("VERIF_OUT not set")
+	}
+	alpha := c15Alphabet()
+	A := len(alpha)
+	maxPrefix := 2 // quick: all sequences of <= 3 requests
+	if h.Tier == "thorough" {
+		maxPrefix = 3 // all sequences of <= 4 requests
+	}
+	maxPrefix = vEnvInt("VERIF_C15_EXH_PREFIX", maxPrefix)
+	rebuild := func(prefix []int) (*quotaTopology, map[int]*c15Spec) {
+		qt := NewQuotaTopology(&c15Client{})
+		store := map[int]*c15Spec{}
+		for _, i := range prefix {
+			c15Apply(h, qt, store, alpha[i])
+		}
+		return qt, store
+	}
+	index := func(prefix []int) int {
+		idx, base := 0, 1
+		for l := 0; l < len(prefix); l++ { // offset of the block of prefixes of this length
+			idx += base
+			base *= A
+		}
+		v := 0
+		for _, i := range prefix {
+			v = v*A + i
+		}
+		return idx + v // () -> 0, (i) -> 1+i, (i,j) -> 1+A+i*A+j, ...
+	}
+	var rec func(prefix []int)
+	rec = func(prefix []int) {
+		var children []int
+		emit := h.Begin(index(prefix)) != nil
+		// committed prefix
+		qt := NewQuotaTopology(&c15Client{})
+		store := map[int]*c15Spec{}
+		if emit {
+			h.Op("compact")
+		}
+		for _, i := range prefix {
+			ok, _, _ := c15Apply(h, qt, store, alpha[i])
+			if emit {
+				h.Op("%s", alpha[i].line())
+				h.Obs("%s", c15Compact(ok, c15Snapshot(qt)))
+			}
+		}
+		base := c15Snapshot(qt)
+		baseLines := strings.Join(base.lines(), "\n")
+		for i, rq := range alpha {
+			qt2, store2 := rebuild(prefix)
+			ok, panicked, err := c15Apply(h, qt2, store2, rq)
+			after := c15Snapshot(qt2)
+			changed := strings.Join(after.lines(), "\n") != baseLines
+			if ok && changed && len(prefix) < maxPrefix {
+				children = append(children, i)
+			}
+			if !emit {
+				continue
+			}
+			h.Op("try %s", rq.line())
+			if panicked {
+				h.Obs("panic")
+				h.Fail("C15:panic", "request %s panicked after prefix %v", rq.line(), prefix)
+				continue
+			}
+			h.Obs("%s", c15Compact(ok, after))
+			h.Tag(fmt.Sprintf("len%d:%s:%s", len(prefix)+1, rq.kind, c15ErrKind(err)))
+			if !ok {
+				if changed {
+					h.Fail("C15:reject-changed-state", "request %s was rejected but the recorded topology changed", rq.line())
+				}
+				continue
+			}
+			if rq.kind == "upd" && base.qs[rq.sp.name] == nil {
+				h.Fail("C15:update-unknown-accepted", "update of unknown quota %d accepted", rq.sp.name)
+			}
+			if rq.kind == "del" {
+				for _, q := range base.qs {
+					if q.parent == rq.sp.name {
+						h.Fail("C15:delete-guard", "quota %d deleted while quota %d has it as parent", rq.sp.name, q.name)
+						break
+					}
+				}
+			}
+			if fp, what := c15WF(after, store2, true); fp != "" {
+				h.Fail(fp, "after prefix %v, request %s: %s", prefix, rq.line(), what)
+			}
+		}
+		if emit {
+			if len(prefix) >= 1 {
+				h.Nontrivial()
+			}
+			h.Tag(fmt.Sprintf("prefix-len:%d", len(prefix)))
+			h.End()
+		}
+		for _, i := range children {
+			rec(append(append([]int(nil), prefix...), i))
+		}
+	}
+	rec(nil)
+	h.Close(fmt.Sprintf("exhaustive: every sequence of <= %d requests over the 75-request alphabet (3 names x {create,update} x 2 is-parent x 2 cpu-min x 3 parents, + delete); "+
+		"one case = committed prefix of accepted state-changing requests + all 75 next requests; non-trivial = non-empty prefix", maxPrefix+1))
 }
